@@ -197,7 +197,8 @@ CLAIMS = {
              "none before the suspending thread left the stack, exactly one at quiescence, and the handshake is never stuck (theorems). Real tasks suspend in arenas of 1-8 threads and are resumed from the "
              "callback, a foreign thread with a racing delay, or another task; oracle: one continuation per suspension, no two threads on a stack, wait covers suspended tasks.",
         note="PARTIAL: the model covers only the m_stack_state handshake (tied by trace conformance on the schedules real threads produce); stack switching, the resume task's route through the arena, owner recall and arena "
-             "lifetime are exercised by the oracle runs only.",
+             "lifetime are exercised by the oracle runs only. KNOWN-FINDING suspended-run-task-releases-freed-reference-vertex (a task_group::run issued on a coroutine can crash in ~function_task when that coroutine's "
+             "task_dispatcher has been destroyed; rare, keyed by the crash's backtrace shape) is printed on every run.",
         ref="4/C20"),
     "C19": dict(
         technique="Coq proof: inductive invariant (OnceInv.J, nine components with counting of helpers inside the reference window / pinned to a runner) over ALL interleavings for ANY number of callers and any pattern of throwing attempts, at the granularity of single accesses to m_state / m_ref_count; in addition exhaustive exploration of five small configurations (Lib/Explore.v); TRACE CONFORMANCE tie: the real collaborative_call_once (header compiled under the atomic prelude) runs with real threads, every access to m_state and to a published runner's m_ref_count is executed and logged under one lock and the log is replayed access by access on the model inside the extracted Coq function OnceConf.conform; real-thread oracle runs for call_once; for the thread-id table of enumerable_thread_specific/combinable: Coq proof of an inductive invariant over all interleavings of the deciding accesses (EtsModel/EtsProofs), sequential differential tie, real-thread oracle with lined-up growth",
